@@ -1,5 +1,6 @@
 import BppModel.Proto
 import BppModel.EigenGlue
+import BppModel.EigenBook
 /-
 Driver for C06 (EigenValue.h, MatrixTools::pow/exp).
 
@@ -9,6 +10,9 @@ Ops (doubles as 16 hex digits, `nan` for any NaN; `;` separates lists):
   eig                       -> s ; d.. ; e.. ; V..      (decomposes the current square matrix)
   getD                      -> D..                      (of the last decomposition)
   setde d.. ; e..           -> D.. | crash              (hook: overwrite (d,e), then getD)
+  trace                     -> hits k:c .. ; log.. ; d.. ; e.. ; V..   (guarded instrumentation of the last
+                               decomposition: branch counters, the records of the bookkeeping steps of
+                               tql2 / hqr2, and d, e, V once more; see `replay` below)
   pow p                     -> d.. ; V.. ; W.. ; O..    | exc:dimension | exc:zerodiv
   exp                       -> d.. ; V.. ; W.. ; O..    | exc:dimension | exc:zerodiv
 
@@ -21,17 +25,19 @@ Tokens `r.<clause>=<x>` appended to the model's answer report the observed size 
 quantity in units of its bound without the constant (gens/C06.py collects their maxima).
 -/
 namespace Bpp.Drive.C06
-open Bpp Bpp.Proto Bpp.EigenGlue
+open Bpp Bpp.Proto Bpp.EigenGlue Bpp.EigenBook
 
 /-! ### constants of the explored bounds (in units of machine epsilon = 2^-52) -/
 def cResidual : Rat := 64    -- ‖(AV − VD)·j‖₁ ≤ c ε ‖A‖₁ (‖v_j‖₁ + ‖v_partner‖₁)
-def cTrace : Rat := 32       -- |Σ d − tr A| ≤ c ε n ‖A‖
-def cDet : Rat := 32         -- |Π blocks − det A| ≤ c ε n ‖A‖ⁿ
-def cOrth : Rat := 32        -- |VᵀV − I|_max ≤ c ε n
-def cCdiv : Rat := 8         -- |q·y − x|₁ ≤ c ε |q|₁ |y|₁
-def cPow : Rat := 16         -- ‖O − A^k‖_max ≤ c ε (k+1) κ² max(‖A‖^k, max|λ|^k), κ = ‖V‖‖W‖
-def cExp : Rat := 16         -- ‖O − Σ A^j/j!‖_max ≤ c ε κ² e^‖A‖
+def cTrace : Rat := 16       -- |Σ d − tr A| ≤ c ε n ‖A‖
+def cDet : Rat := 16         -- |Π blocks − det A| ≤ c ε n ‖A‖ⁿ
+def cOrth : Rat := 8         -- |VᵀV − I|_max ≤ c ε n
+def cCdiv : Rat := 4         -- |q·y − x|₁ ≤ c ε |q|₁ |y|₁
+def cPow : Rat := 4          -- ‖O − A^k‖_max ≤ c ε (k+1) κ² max(‖A‖^k, max|λ|^k), κ = ‖V‖‖W‖
+def cExp : Rat := 4          -- ‖O − Σ A^j/j!‖_max ≤ c ε κ² e^‖A‖
 def condGate : Rat := 10000   -- pow/exp are judged only when κ = ‖V‖₁‖W‖₁ ≤ this
+def cHypot : Rat := 8        -- |r² − (p² + 1)| ≤ c ε (p² + 1)   (hypothesis of tql2_shift_uniform)
+def cSweep : Rat := 16       -- |tr(window) after sweeps − before| ≤ c ε n ‖A‖  (hypothesis of the trace theorems)
 
 def eps : Rat := 1 / (2 ^ 52 : Nat)
 
@@ -267,8 +273,225 @@ def glueVerdict (isExp : Bool) (n : Nat) (A : Array Float) (p : Float) (d V W O 
       ((if err ≤ cPow * unit then "ok" else "FAIL:pow_sqrt"), rtok "powhalf" (err / unit) ++ rtok "kappa" kappa)
     else ("-", "")
 
-/-! ### the machine -/
 def afun (n : Nat) (m : Array Float) : FMat Float := fun i j => m[i * n + j]!
+
+/-! ### replay of the bookkeeping records (op `trace`)
+
+The guarded instrumentation of EigenValue.h appends one record `code len payload..` per bookkeeping
+step (all numbers as doubles):
+  1  tql2 shift   l m e[l] hypot(p,1) f' ; d before (n) ; d after `f = f + h` (n)
+  2  tql2 finish  l d[l] f d[l]+f
+  3  tql2 presort d (n) ; V (n·n)
+  4  hqr2 iter==10  n x exshift' ; diag(0..n) before ; diag(0..n) after
+  5  hqr2 iter==30  n x y w s exshift' ; diag(0..n) before ; after        (only when the shift is taken)
+  6  hqr2 one root  n H(n,n) exshift d[n] e[n] ; diag(0..n-1)
+  7  hqr2 two roots n H(n-1,n-1) H(n-1,n) H(n,n-1) H(n,n) exshift d[n-1] d[n] e[n-1] e[n] ; diag(0..n-2)
+The model (`EigenBook.hqrStep` / `tqlStep` / `sortEig` at `Float`) is run over the records: every value a
+bookkeeping step *computes* (exshift, f, shifted diagonals, reported eigenvalues, sorted lists) is
+recomputed from the values that *enter* the step and printed in the record's place, so that the ordinary
+token comparison of check.py is the tie; the window sizes of the records must be the model's. -/
+structure Rec where
+  code : Nat
+  p : Array Float
+
+def natOfFloat (x : Float) : Option Nat :=
+  if x.isNaN || x < 0 || x > 1000000 then none else
+  let k := x.toUInt64.toNat
+  if Float.ofNat k == x then some k else none
+
+def parseLog (a : Array Float) : Option (List Rec) := Id.run do
+  let mut i := 0
+  let mut out : Array Rec := #[]
+  for _ in [0:a.size] do
+    if i < a.size then
+      if i + 1 < a.size then
+        match natOfFloat a[i]!, natOfFloat a[i + 1]! with
+        | some c, some len =>
+          if i + 2 + len ≤ a.size then
+            out := out.push { code := c, p := a.extract (i + 2) (i + 2 + len) }
+            i := i + 2 + len
+          else return none
+        | _, _ => return none
+      else return none
+  return some out.toList
+
+def showRec (r : Rec) : String :=
+  showFs ([Float.ofNat r.code, Float.ofNat r.p.size] ++ r.p.toList)
+
+def seg (a : Array Float) (off len : Nat) : Nat → Float := fun i => if i < len then a[off + i]! else 0.0
+def tab (f : Nat → Float) (len : Nat) : List Float := (List.range len).map f
+
+/-- hqr2 records through `hqrStep` -/
+def replayHqr (st0 : HqrSt Float) (recs : List Rec) : Option (List Rec × HqrSt Float) :=
+  recs.foldlM (fun (acc : List Rec × HqrSt Float) r => do
+    let (out, st) := acc
+    let p := r.p
+    let nc ← natOfFloat (p[0]?.getD (-1.0))
+    let w := nc + 1
+    if st.n != w then none else
+    match r.code with
+    | 4 =>
+      if p.size != 3 + 2 * w then none else do
+      let st1 ← hqrStep st (.sweep (seg p 3 w))
+      let st2 ← hqrStep st1 .ex10
+      pure (out ++ [{ r with p := (#[p[0]!, st1.diag nc, st2.exshift] ++ (tab (seg p 3 w) w).toArray ++ (tab st2.diag w).toArray) }], st2)
+    | 5 =>
+      if p.size != 6 + 2 * w || w < 2 then none else do
+      let st1 ← hqrStep st (.sweep (seg p 6 w))
+      let st2 ← hqrStep st1 (.ex30 p[3]!)
+      let s := (ex30Shift (st1.diag nc) (st1.diag (nc - 1)) p[3]!).getD nan
+      pure (out ++ [{ r with p := (#[p[0]!, st1.diag nc, st1.diag (nc - 1), p[3]!, s, st2.exshift] ++ (tab (seg p 6 w) w).toArray ++ (tab st2.diag w).toArray) }], st2)
+    | 6 =>
+      if p.size != 5 + nc then none else do
+      let hnn := p[1]!
+      let st1 ← hqrStep st (.sweep (fun i => if i < nc then p[5 + i]! else hnn))
+      let st2 ← hqrStep st1 .defl1
+      pure (out ++ [{ r with p := (#[p[0]!, hnn, st.exshift, st2.d nc, st2.e nc] ++ p.extract 5 (5 + nc)) }], st2)
+    | 7 =>
+      if nc < 1 || p.size != 10 + (nc - 1) then none else do
+      let st1 ← hqrStep st (.sweep (fun i => if i + 1 < nc then p[10 + i]! else if i + 1 = nc then p[1]! else p[4]!))
+      let st2 ← hqrStep st1 (.defl2 p[2]! p[3]!)
+      pure (out ++ [{ r with p := (#[p[0]!, p[1]!, p[2]!, p[3]!, p[4]!, st.exshift, st2.d (nc - 1), st2.d nc, st2.e (nc - 1), st2.e nc]
+          ++ p.extract 10 (10 + (nc - 1))) }], st2)
+    | _ => none) ([], st0)
+
+/-- tql2 records through `tqlStep`; the presort record is copied, the sort is run afterwards -/
+def replayTql (n : Nat) (st0 : TqlSt Float) (recs : List Rec) : Option (List Rec × TqlSt Float) :=
+  recs.foldlM (fun (acc : List Rec × TqlSt Float) r => do
+    let (out, st) := acc
+    let p := r.p
+    match r.code with
+    | 1 =>
+      if p.size != 5 + 2 * n then none else do
+      let l ← natOfFloat p[0]!
+      if st.l != l then none else
+      -- entries below l are final values the model already holds; the window [l, n) enters from the record
+      let dB : Nat → Float := fun i => if i < l then st.d i else p[5 + i]!
+      let st1 ← tqlStep st (.sweep dB)
+      let st2 ← tqlStep st1 (.shift p[2]! p[3]!)
+      pure (out ++ [{ r with p := (#[p[0]!, p[1]!, p[2]!, p[3]!, st2.f] ++ (tab dB n).toArray ++ (tab st2.d n).toArray) }], st2)
+    | 2 =>
+      if p.size != 4 then none else do
+      let l ← natOfFloat p[0]!
+      if st.l != l then none else
+      let st1 ← tqlStep st (.sweep (upd st.d l p[1]!))
+      let st2 ← tqlStep st1 .fin
+      pure (out ++ [{ r with p := #[p[0]!, p[1]!, st.f, st2.d l] }], st2)
+    | 3 =>
+      if p.size != n + n * n || st.l != n then none else
+      pure (out ++ [{ r with p := (tab st.d n).toArray ++ p.extract n (n + n * n) }], st)
+    | _ => none) ([], st0)
+
+/-- exact sum of the first `len` entries of a segment -/
+def qsum (a : Array Float) (off len : Nat) : Rat := rsum ((List.range len).map fun i => toRat a[off + i]!)
+
+/-- explored on the implementation's records: the hypotheses of the bookkeeping theorems.
+Returns the observed sizes (hypot relation, drift of the window's trace across the untranscribed sweeps)
+in units of their bounds without the constants. -/
+def traceHyps (n : Nat) (sym : Bool) (A : Array Float) (recs : List Rec) : Rat × Rat :=
+  let a : RM := A.map toRat
+  let unit := eps * (n : Rat) * rmax (norm1 n a) (normInf n a)
+  if sym then
+    let hyp := rmaxl (recs.map fun r =>
+      if r.code == 1 && r.p.size == 5 + 2 * n then
+        let l := (natOfFloat r.p[0]!).getD 0
+        let el := toRat r.p[2]!
+        let rr := toRat r.p[3]!
+        if el == 0 || l + 1 ≥ n then 1000000000 else
+        let p := (toRat r.p[5 + l + 1]! - toRat r.p[5 + l]!) / (2 * el)
+        if rr ≤ 0 then 1000000000 else rabs (rr * rr - (p * p + 1)) / (eps * (p * p + 1))
+      else 0)
+    -- consecutive shift records of the same l: Σ_{i ≥ l} d is preserved by the QL transformation between them
+    let pairs := recs.zip (recs.drop 1)
+    let drift := rmaxl (pairs.map fun (r1, r2) =>
+      if r1.code == 1 && r2.code == 1 && r1.p.size == 5 + 2 * n && r2.p.size == 5 + 2 * n && r1.p[0]! == r2.p[0]! then
+        let l := (natOfFloat r1.p[0]!).getD 0
+        let s1 := qsum r1.p (5 + n + l) (n - l)
+        let s2 := qsum r2.p (5 + l) (n - l)
+        if unit == 0 then (if s1 == s2 then 0 else 1000000000) else rabs (s1 - s2) / unit
+      else 0)
+    (hyp, drift)
+  else
+    -- (window size, offset of the diagonal before the step, offset after the step or none)
+    let before (r : Rec) : Option (Nat × Rat) :=
+      let nc := (natOfFloat (r.p[0]?.getD (-1.0))).getD 0
+      let w := nc + 1
+      match r.code with
+      | 4 => if r.p.size == 3 + 2 * w then some (w, qsum r.p 3 w) else none
+      | 5 => if r.p.size == 6 + 2 * w then some (w, qsum r.p 6 w) else none
+      | 6 => if r.p.size == 5 + nc then some (w, qsum r.p 5 nc + toRat r.p[1]!) else none
+      | 7 => if nc ≥ 1 && r.p.size == 10 + (nc - 1) then some (w, qsum r.p 10 (nc - 1) + toRat r.p[1]! + toRat r.p[4]!) else none
+      | _ => none
+    -- trace of the first `w'` diagonal entries after the step (w' ≤ the window left by the step)
+    let after (r : Rec) (w' : Nat) : Option Rat :=
+      let nc := (natOfFloat (r.p[0]?.getD (-1.0))).getD 0
+      let w := nc + 1
+      match r.code with
+      | 4 => if r.p.size == 3 + 2 * w && w' == w then some (qsum r.p (3 + w) w) else none
+      | 5 => if r.p.size == 6 + 2 * w && w' == w then some (qsum r.p (6 + w) w) else none
+      | 6 => if r.p.size == 5 + nc && w' == nc then some (qsum r.p 5 nc) else none
+      | 7 => if nc ≥ 1 && r.p.size == 10 + (nc - 1) && w' == nc - 1 then some (qsum r.p 10 (nc - 1)) else none
+      | _ => none
+    let pairs := recs.zip (recs.drop 1)
+    let drift := rmaxl (pairs.map fun (r1, r2) =>
+      match before r2 with
+      | some (w2, s2) =>
+        match after r1 w2 with
+        | some s1 => if unit == 0 then (if s1 == s2 then 0 else 1000000000) else rabs (s1 - s2) / unit
+        | none => 1000000000        -- the window grew or the records are malformed
+      | none => 1000000000)
+    -- the first record against tr A (orthes is a similarity)
+    let first := match recs.head? with
+      | some r => (match before r with
+        | some (w, s) => if w != n then 1000000000 else
+          let tr := rsum ((List.range n).map fun i => rget n a i i)
+          if unit == 0 then (if s == tr then 0 else 1000000000) else rabs (s - tr) / unit
+        | none => 1000000000)
+      | none => 0
+    (0, rmax drift first)
+
+/-- the model's answer to `trace` and the verdict on the implementation's records -/
+def traceStep (s : St) (t : List String) : String × String :=
+  match splitTok ";" t with
+  | [hits, logs, ds, es, vs] =>
+    match flts? logs, flts? ds, flts? es, flts? vs with
+    | some log, some dF, some eF, some vF =>
+      let n := s.nr
+      if dF.size != n || eF.size != n || vF.size != n * n then ("bad-trace", "FAIL:parse") else
+      match parseLog log with
+      | none => ("bad-trace", "FAIL:parse")
+      | some recs =>
+        let sym := isSymmetric n (afun n s.A)
+        let hitsS := " ".intercalate hits
+        let (hyp, drift) := traceHyps n sym s.A recs
+        let rep := (if sym then rtok "hypot" hyp else "") ++ rtok "sweeptrace" drift
+        let verdict :=
+          if !(allFin s.A) || !(allFin log) then "-" else
+          firstFail ((if sym then [("tql2_hypot", decide (hyp ≤ cHypot))] else []) ++
+            [(if sym then "tql2_sweep_trace" else "hqr2_sweep_trace", decide (drift ≤ cSweep))])
+        if sym then
+          match replayTql n (tqlInit n (fun _ => 0.0)) recs with
+          | none => ("trace-structure " ++ hitsS, verdict)
+          | some (out, _) =>
+            -- the sort runs on the implementation's own pre-sort lists (record 3)
+            match recs.find? (·.code == 3) with
+            | some r3 =>
+              if r3.p.size != n + n * n then ("trace-structure " ++ hitsS, verdict) else
+              let (d', V') := sortEig n (fun i => r3.p[i]!) (fun i j => r3.p[n + i * n + j]!)
+              (hitsS ++ " ; " ++ " ".intercalate (out.map showRec) ++ " ; " ++ showFs (tab d' n) ++ " ; "
+                ++ showFs (tab (fun _ => 0.0) n) ++ " ; " ++ showFs ((tabulate n n V').flatMap id) ++ rep, verdict)
+            | none => ("trace-structure " ++ hitsS, verdict)
+        else
+          match replayHqr (hqrInit n (fun _ => 0.0)) recs with
+          | none => ("trace-structure " ++ hitsS, verdict)
+          | some (out, st) =>
+            if st.n != 0 then ("trace-structure " ++ hitsS, verdict) else
+            (hitsS ++ " ; " ++ " ".intercalate (out.map showRec) ++ " ; " ++ showFs (tab st.d n) ++ " ; "
+              ++ showFs (tab st.e n) ++ " ; " ++ showFs vF.toList ++ rep, verdict)
+    | _, _, _, _ => ("bad-trace", "FAIL:parse")
+  | _ => ("bad-trace", "FAIL:parse")
+
+/-! ### the machine -/
 
 def step (s : St) (op : List String) (impl : Option (List String)) : St × String × String :=
   match op with
@@ -337,6 +560,13 @@ def step (s : St) (op : List String) (impl : Option (List String)) : St × Strin
         (s', showRows r, match r with | .ok _ => dVerdict n d e impl | _ => "-")
       | _, _ => (s, "bad-op", "-")
     | _ => (s, "bad-op", "-")
+  | ["trace"] =>
+    if !s.haveEig then (s, "bad-op", "-") else
+    match impl with
+    | none => (s, "hole", "-")
+    | some t =>
+      let (out, verdict) := traceStep s t
+      (s, out, verdict)
   | "pow" :: _ | "exp" :: _ =>
     let isExp := op.head? == some "exp"
     let p? : Option Float := if isExp then some 0.0 else (match op with | [_, p] => flt? p | _ => none)
